@@ -16,12 +16,15 @@ Record wcache := mkWC { wc_limit : Z; wc_withdrawn : Z; wc_last_reset : Z }.   (
 (* the daily window is over: current_timestamp.saturating_sub(last_daily_reset_timestamp) >= DAILY_RESET_INTERVAL *)
 Definition reset_due (c : wcache) (now : Z) : bool := DAILY_RESET_INTERVAL <=? sat_i64 (now - wc_last_reset c).
 
-(* MarginfiGroup::update_withdrawn_equity: to_num::<u32>() wraps (debug_assert only), saturating_add *)
+(* MarginfiGroup::update_withdrawn_equity: whole dollars in u64 (a value that does not fit counts as
+   u64::MAX), saturating u64 sum, comparison with the limit BEFORE the clamp to u32 *)
+Definition withdrawn_u64 (eq : fx) : Z := match to_u64_checked eq with Ok n => n | Err _ => U64_MAX end.
+
 Definition update_withdrawn_equity (c : wcache) (eq : fx) (now : Z) : res wcache :=
   let c1 := if reset_due c now then mkWC (wc_limit c) 0 now else c in
-  let wd := Z.min U32_MAXZ (wc_withdrawn c1 + to_u32_wrapping eq) in
-  if negb (wc_limit c1 =? 0) && (wc_limit c1 <? wd) then Err (E E_DailyWithdrawalLimitExceeded)
-  else Ok (mkWC (wc_limit c1) wd (wc_last_reset c1)).
+  let total := Z.min U64_MAX (wc_withdrawn c1 + withdrawn_u64 eq) in
+  if negb (wc_limit c1 =? 0) && (wc_limit c1 <? total) then Err (E E_DailyWithdrawalLimitExceeded)
+  else Ok (mkWC (wc_limit c1) (Z.min U32_MAXZ total) (wc_last_reset c1)).
 
 (* configure_deleverage_withdrawal_limit (group admin): the amount withdrawn so far is kept *)
 Definition configure_withdrawal_limit (c : wcache) (limit now : Z) : res wcache :=
